@@ -200,6 +200,22 @@ def z_lang():
         st, info = _check_lang_one(S, dom, rx, row, flags, pat, corpus)
         stats[st] += 1
         case = {"rule": row, "flags": flags, "origin": origin, "witness": info if st in ("ok", "fail") else None}
+        # the KEY of a row is what the placeholders capture: same number of capturing groups as the reference pattern, and the
+        # same captured words on the witness row of the language query
+        try:
+            rsrc, rfl = ref.ref_rule_regex(row, flags)
+            rpat = re.compile(rsrc, rfl)
+            wit = info if (st == "ok" and isinstance(info, str)) else None
+            bad_key = pat.groups != rpat.groups
+            if not bad_key and wit is not None and pat.match(wit) and rpat.match(wit):
+                bad_key = pat.match(wit).groups() != rpat.match(wit).groups()
+            if bad_key:
+                stats["fail"] += 1
+                rt.record(dict(case, key_check=True), False, [row, flags, "key"],
+                          detail={"rule": row, "compiled": pat.pattern, "groups": pat.groups, "reference": rsrc,
+                                  "reference_groups": rpat.groups, "witness": wit}, fingerprint="C07:key-groups:%s" % origin)
+        except re.error:
+            pass
         if st == "fail":
             rt.record(case, False, [row, flags], detail={"row": info, "compiled": pat.pattern,
                                                           "reference": ref.ref_rule_regex(row, flags)[0]},
@@ -324,6 +340,16 @@ def replay_lang(case):
     row, flags, w = case["rule"], case["flags"], case["witness"]
     pat = syntax.compile_row_regexp(row, flags)
     src, fl = ref.ref_rule_regex(row, flags)
+    if case.get("key_check"):
+        rpat = re.compile(src, fl)
+        bad = pat.groups != rpat.groups
+        ga = gb = None
+        if not bad and w is not None and pat.match(w) and rpat.match(w):
+            ga, gb = pat.match(w).groups(), rpat.match(w).groups()
+            bad = ga != gb
+        return {"ok": not bad, "detail": {"rule": row, "compiled": pat.pattern, "groups": pat.groups, "reference": src,
+                                          "reference_groups": rpat.groups, "config_row": w, "key": ga, "reference_key": gb},
+                "fingerprint": "C07:key-groups:%s" % case.get("origin")}
     a = pat.match(w) is not None
     b = re.compile(src, fl).match(w) is not None
     return {"ok": a == b, "detail": {"rule": row, "config_row": w, "annet_matches": a, "reference_matches": b,
